@@ -1,11 +1,380 @@
-import ScryerModel.Proofs.FsTree
+import ScryerModel.Proofs.FsTreeLaws
 /-!
 # C48 — file-system predicates reflect and change the real file system
+
+The operating system is outside every model. What is proved here is the SPECIFICATION the real
+predicates are compared against after every step of the correspondence run (`vlib/props/C48.py`):
+`Model/FsTree.lean`, a finite path map with POSIX path resolution, the system calls `std::fs`
+uses, std's `create_dir_all`, and the argument checks of `src/lib/files.pl`.
+
+* `get fs p` is what the tree has at path `p` (`none`, a directory, or a file with its bytes);
+  `WF fs` says every entry's parent is a directory (the path map is a tree).
+* frame properties are stated through `get`: a successful call changes `get` at the touched
+  path(s) only.
+* all theorems hold for every tree, every working directory and every path text (any Unicode
+  names, any length of script); none is bounded.
 -/
 namespace Scryer.FsTree
+
+/-! ## path_segments/2 -/
 
 /-- `path_segments/2` round trip, path → segments → path, for EVERY path text (empty segments,
 leading / trailing / doubled separators included). -/
 theorem C48_segments_join_split (p : List Char) : joinC (splitC p) = p := joinC_splitC p
+
+/-- round trip segments → path → segments: for every NON-EMPTY list of separator-free segments
+(the empty list joins to `""`, which splits to `[""]`: see the example below). -/
+theorem C48_segments_split_join {ss : List (List Char)} (hne : ss ≠ [])
+    (h : ∀ s ∈ ss, '/' ∉ s) : splitC (joinC ss) = ss := splitC_joinC hne h
+
+/-- the segments of a path: at least one, none contains the separator, one more than there are
+separators. So path ↦ segments is a bijection between path texts and non-empty lists of
+separator-free segments. -/
+theorem C48_segments_shape (p : List Char) :
+    splitC p ≠ [] ∧ (∀ s ∈ splitC p, '/' ∉ s) ∧ (splitC p).length = p.count '/' + 1 :=
+  ⟨splitC_ne_nil p, splitC_segments_noSep p, splitC_length p⟩
+
+example : splitC (joinC []) = [[]] := by decide
+example : splitC ['/'] = [[], []] := by decide
+example : joinC [['a'], [], ['b']] = ['a', '/', '/', 'b'] := by decide
+
+/-! ## documented errors: `must_be(chars, Path)` -/
+
+/-- a non-list (an atom, a number, a list with a non-list tail) is a `type_error(list, _)`,
+whatever else is wrong with it -/
+theorem C48_error_not_a_list (a : Chars) (h : a.tail = .bad) : mustBeChars a = .error .eTypeList := by
+  simp [mustBeChars, h]
+
+/-- the first element that is neither a variable nor a character is a `type_error(character, _)`,
+even when the list is partial or has unbound elements: type errors come before instantiation
+errors -/
+theorem C48_error_not_a_character (a : Chars) (k : Nat) (ht : a.tail ≠ .bad)
+    (hb : firstBad a.elems = some k) : mustBeChars a = .error (.eTypeChar k) := by
+  simp [mustBeChars, ht, hb]
+
+/-- without ill-typed parts, a partial list or an unbound element is an `instantiation_error` -/
+theorem C48_error_not_instantiated (a : Chars) (ht : a.tail ≠ .bad) (hb : firstBad a.elems = none)
+    (hv : a.tail = .var ∨ a.elems.any (· == .var) = true) : mustBeChars a = .error .eInst := by
+  rcases hv with hv | hv
+  · simp [mustBeChars, hb, hv]
+  · by_cases h2 : a.tail = .var
+    · simp [mustBeChars, hb, h2]
+    · simp [mustBeChars, ht, hb, h2, hv]
+
+/-- a missing file is an `existence_error(file, Path)` for `file_size/2`, `delete_file/1`,
+`rename_file/2`, `file_copy/2` (with the path text as given), and the tree is untouched -/
+theorem C48_error_missing_file (cfg : Cfg) (fs : Fs) (a b : Chars) (sz : IntArg) (s : String)
+    (ha : mustBeChars a = .ok s) (hin : escapes fs cfg.cwd s = false) (hf : isFile fs cfg.cwd s = false) :
+    step cfg fs (.fileSize a sz) = (fs, .eNoFile s) ∧ step cfg fs (.deleteFile a) = (fs, .eNoFile s) ∧
+    step cfg fs (.rename a b) = (fs, .eNoFile s) ∧ step cfg fs (.copy a b) = (fs, .eNoFile s) := by
+  refine ⟨?_, ?_, ?_, ?_⟩
+  · unfold isFile at hf
+    cases hs : stat fs cfg.cwd s with
+    | none => simp [step, ha, hin, hs]
+    | some e =>
+      cases e with
+      | dir => simp [step, ha, hin, hs]
+      | file b => rw [hs] at hf; simp at hf
+  · simp [step, ha, hin, hf]
+  · simp [step, ha, hin, hf]
+  · simp [step, ha, hin, hf]
+
+/-- a missing directory is an `existence_error(directory, Path)` for `delete_directory/1` -/
+theorem C48_error_missing_directory (cfg : Cfg) (fs : Fs) (a : Chars) (s : String)
+    (ha : mustBeChars a = .ok s) (hin : escapes fs cfg.cwd s = false) (hf : isDir fs cfg.cwd s = false) :
+    step cfg fs (.deleteDir a) = (fs, .eNoDir s) := by
+  simp [step, ha, hin, hf]
+
+/-! ## queries reflect the tree -/
+
+/-- `file_exists/1` and `directory_exists/1` never hold together, and what a path resolves to is
+what the tree has at the lexical normal form of the path (`.`/empty components dropped, `..`
+removing a name): no symbolic links, so `path_canonical/2` = normal form of the segment list. -/
+theorem C48_resolution_is_normal_form {fs : Fs} (h : WF fs) {cwd : Path} {s : String} {p : Path}
+    {e : Entry} (hr : resolve fs cwd s = .found p e) :
+    p = lexNorm (if isAbs s then [] else cwd) (comps s) ∧ get fs p = some e ∧
+    realpath fs cwd s = some (renderAbs p) ∧ ¬ (isFile fs cwd s = true ∧ isDir fs cwd s = true) := by
+  refine ⟨resolve_found_lexNorm hr, resolve_found h hr, by simp [realpath, hr], ?_⟩
+  cases e <;> simp [isFile, isDir, stat, hr]
+
+/-- `directory_files/2` lists exactly the names that have an entry below the directory -/
+theorem C48_directory_files (fs : Fs) (d : Path) (n : Name) :
+    n ∈ children fs d ↔ get fs (d ++ [n]) ≠ none := mem_children fs d n
+
+/-- the query predicates (and `path_segments/2`) never change the tree -/
+theorem C48_queries_change_nothing (cfg : Cfg) (fs : Fs) (a : Chars) (sz : IntArg) (l : ListArg)
+    (sg : SegsArg) :
+    (step cfg fs (.fileExists a)).1 = fs ∧ (step cfg fs (.dirExists a)).1 = fs ∧
+    (step cfg fs (.fileSize a sz)).1 = fs ∧ (step cfg fs (.dirFiles a l)).1 = fs ∧
+    (step cfg fs (.canonical a l)).1 = fs ∧ (step cfg fs (.segments a sg)).1 = fs := by
+  refine ⟨?_, ?_, ?_, ?_, ?_, rfl⟩
+  · simp only [step]
+    split
+    · rfl
+    · split <;> rfl
+  · simp only [step]
+    split
+    · rfl
+    · split <;> rfl
+  · simp only [step]
+    split
+    · rfl
+    · split
+      · rfl
+      · split
+        · split <;> rfl
+        · rfl
+  · simp only [step]
+    split
+    · rfl
+    · split
+      · rfl
+      · split
+        · rfl
+        · split
+          · rfl
+          · split <;> rfl
+  · simp only [step]
+    split
+    · rfl
+    · split
+      · rfl
+      · split
+        · rfl
+        · split
+          · rfl
+          · split <;> rfl
+
+/-! ## mutations: frame properties -/
+
+/-- `make_directory/1`: success means the path named nothing in an existing directory, and the
+only change is a new empty directory there. (On an existing path, a missing parent, a file used
+as a directory … the call fails and — `C48_failure_changes_nothing` — leaves the tree alone.) -/
+theorem C48_make_directory_frame {fs fs' : Fs} (h : WF fs) {cwd : Path} {s : String}
+    (hm : mkdir fs cwd s = .ok fs') :
+    ∃ k, get fs k = none ∧ get fs k.dropLast = some .dir ∧
+      (∀ q, get fs' q = if q = k then some .dir else get fs q) ∧ children fs' k = [] := by
+  obtain ⟨k, hk, hn, hp, rfl⟩ := mkdir_spec h hm
+  refine ⟨k, hn, hp, fun q => get_set _ _ _ _ hk, ?_⟩
+  apply (children_nil_iff _ _).2
+  intro q hq hd
+  rw [get_set _ _ _ _ hk]
+  have : q ≠ k := by intro he; rw [he] at hd; exact dropLast_ne_self hk hd
+  simp only [this, if_false]
+  exact no_children_of_not_dir h (by rw [hn]; simp) q hq hd
+
+/-- `delete_directory/1`: success means the path named an EMPTY directory; it is gone and nothing
+else changed -/
+theorem C48_delete_directory_frame {fs fs' : Fs} (h : WF fs) {cwd : Path} {s : String}
+    (hm : rmdir fs cwd s = .ok fs') :
+    ∃ k, get fs k = some .dir ∧ children fs k = [] ∧
+      ∀ q, get fs' q = if q = k then none else get fs q := by
+  obtain ⟨k, hk, hg, hc, rfl⟩ := rmdir_spec h hm
+  exact ⟨k, hg, hc, fun q => get_erase _ _ _ hk⟩
+
+/-- `delete_file/1`: success means the path named a file; it is gone and nothing else changed -/
+theorem C48_delete_file_frame {fs fs' : Fs} (h : WF fs) {cwd : Path} {s : String}
+    (hm : unlink fs cwd s = .ok fs') :
+    ∃ k b, get fs k = some (.file b) ∧ ∀ q, get fs' q = if q = k then none else get fs q := by
+  obtain ⟨k, b, hk, hg, rfl⟩ := unlink_spec h hm
+  exact ⟨k, b, hg, fun q => get_erase _ _ _ hk⟩
+
+/-- `rename_file/2`: the source file's content is at the target (an existing FILE is
+overwritten; a directory is never a target), the source name is free, nothing else changed;
+renaming a file to itself changes nothing -/
+theorem C48_rename_file_frame {fs fs' : Fs} (h : WF fs) {cwd : Path} {a b : String}
+    (hm : rename fs cwd a b = .ok fs') :
+    ∃ ps bytes, get fs ps = some (.file bytes) ∧
+      (fs' = fs ∨ ∃ pd, pd ≠ ps ∧ get fs pd ≠ some .dir ∧
+        ∀ q, get fs' q = if q = pd then some (.file bytes) else if q = ps then none else get fs q) := by
+  obtain ⟨ps, bytes, hg, hc⟩ := rename_spec h hm
+  refine ⟨ps, bytes, hg, ?_⟩
+  rcases hc with rfl | ⟨pd, hne, ⟨hpd, hnd, _⟩, rfl⟩
+  · exact Or.inl rfl
+  · right
+    refine ⟨pd, hne, hnd, fun q => ?_⟩
+    rw [get_set _ _ _ _ hpd, get_erase _ _ _ (file_ne_root hg)]
+
+/-- `file_copy/2` (repaired, see `C48_file_copy_pinned_truncates`): afterwards the target has the
+source's content — so `file_size/2` of both agree —, the source still has it, and nothing else
+changed -/
+theorem C48_file_copy_frame {fs fs' : Fs} (h : WF fs) {cwd : Path} {a b : String}
+    (hm : copy false fs cwd a b = .ok fs') :
+    ∃ ps pd bytes, get fs ps = some (.file bytes) ∧ get fs' ps = some (.file bytes) ∧
+      get fs' pd = some (.file bytes) ∧ get fs pd ≠ some .dir ∧ ∀ q, q ≠ pd → get fs' q = get fs q := by
+  obtain ⟨ps, bytes, hg, hc⟩ := copy_spec h hm
+  rcases hc with rfl | ⟨pd, hne, ⟨hpd, hnd, _⟩, rfl⟩
+  · exact ⟨ps, ps, bytes, hg, hg, hg, by rw [hg]; simp, fun _ _ => rfl⟩
+  · refine ⟨ps, pd, bytes, hg, ?_, ?_, hnd, fun q hq => ?_⟩
+    · rw [get_set _ _ _ _ hpd]; simp [Ne.symm hne, hg]
+    · rw [get_set _ _ _ _ hpd]; simp
+    · rw [get_set _ _ _ _ hpd]; simp [hq]
+
+/-- the pinned `file_copy/2` (finding C48-1): when source and target texts name the same file,
+`std::fs::copy` truncates it before reading, so the "copy" is empty: for a non-empty file this
+contradicts `C48_file_copy_frame` (content preserved). -/
+theorem C48_file_copy_pinned_truncates {fs : Fs} {cwd : Path} {a b : String} {p : Path}
+    {bytes x : List UInt8} (ha : resolve fs cwd a = .found p (.file bytes))
+    (hb : resolve fs cwd b = .found p (.file x)) (hp : p ≠ []) :
+    ∃ fs', copy true fs cwd a b = .ok fs' ∧ get fs' p = some (.file []) := by
+  refine ⟨set fs p (.file []), by simp [copy, ha, hb], ?_⟩
+  rw [get_set _ _ _ _ hp]; simp
+
+/-- a failing call of any predicate except `make_directory_path/1` leaves the tree alone -/
+theorem C48_failure_changes_nothing (cfg : Cfg) (fs : Fs) (op : Op)
+    (hop : ∀ a, op ≠ .mkdirPath a) (hw : ∀ p b, op ≠ .envWrite p b)
+    (hno : (step cfg fs op).2 ≠ .yes) : (step cfg fs op).1 = fs := by
+  have hofe : ∀ r : Except Errno Fs, (ofExcept fs r).2 ≠ .yes → (ofExcept fs r).1 = fs := by
+    intro r; unfold ofExcept; split <;> simp
+  cases op with
+  | fileExists a => exact (C48_queries_change_nothing cfg fs a .var .var .var).1
+  | dirExists a => exact (C48_queries_change_nothing cfg fs a .var .var .var).2.1
+  | fileSize a sz => exact (C48_queries_change_nothing cfg fs a sz .var .var).2.2.1
+  | dirFiles a l => exact (C48_queries_change_nothing cfg fs a .var l .var).2.2.2.1
+  | canonical a l => exact (C48_queries_change_nothing cfg fs a .var l .var).2.2.2.2.1
+  | segments a sg => rfl
+  | mkdirPath a => exact absurd rfl (hop a)
+  | envWrite p b => exact absurd rfl (hw p b)
+  | mkdir a =>
+    cases hmb : mustBeChars a with
+    | error e => simp [step, hmb]
+    | ok s => simp only [step, hmb] at hno ⊢; exact hofe _ hno
+  | deleteFile a =>
+    cases hmb : mustBeChars a with
+    | error e => simp [step, hmb]
+    | ok s =>
+      simp only [step, hmb] at hno ⊢
+      by_cases h1 : escapes fs cfg.cwd s = true
+      · rw [if_pos h1]
+      · rw [if_neg h1] at hno ⊢
+        by_cases h2 : isFile fs cfg.cwd s = true
+        · rw [if_pos h2] at hno ⊢; exact hofe _ hno
+        · rw [if_neg h2]
+  | deleteDir a =>
+    cases hmb : mustBeChars a with
+    | error e => simp [step, hmb]
+    | ok s =>
+      simp only [step, hmb] at hno ⊢
+      by_cases h1 : escapes fs cfg.cwd s = true
+      · rw [if_pos h1]
+      · rw [if_neg h1] at hno ⊢
+        by_cases h2 : isDir fs cfg.cwd s = true
+        · rw [if_pos h2] at hno ⊢; exact hofe _ hno
+        · rw [if_neg h2]
+  | rename a b =>
+    cases hmb : mustBeChars a with
+    | error e => simp [step, hmb]
+    | ok s =>
+      simp only [step, hmb] at hno ⊢
+      by_cases h1 : escapes fs cfg.cwd s = true
+      · rw [if_pos h1]
+      · rw [if_neg h1] at hno ⊢
+        by_cases h2 : isFile fs cfg.cwd s = true
+        · rw [if_pos h2] at hno ⊢
+          cases hb : mustBeChars b with
+          | error e => simp [hb]
+          | ok t => simp only [hb] at hno ⊢; exact hofe _ hno
+        · rw [if_neg h2]
+  | copy a b =>
+    cases hmb : mustBeChars a with
+    | error e => simp [step, hmb]
+    | ok s =>
+      simp only [step, hmb] at hno ⊢
+      by_cases h1 : escapes fs cfg.cwd s = true
+      · rw [if_pos h1]
+      · rw [if_neg h1] at hno ⊢
+        by_cases h2 : isFile fs cfg.cwd s = true
+        · rw [if_pos h2] at hno ⊢
+          cases hb : mustBeChars b with
+          | error e => simp [hb]
+          | ok t => simp only [hb] at hno ⊢; exact hofe _ hno
+        · rw [if_neg h2]
+
+/-! ## algebraic laws -/
+
+/-- `make_directory(P)` then `directory_exists(P)` -/
+theorem C48_make_directory_then_exists {fs fs' : Fs} (h : WF fs) {cwd : Path} {s : String}
+    (hm : mkdir fs cwd s = .ok fs') : isDir fs' cwd s = true ∧ isFile fs' cwd s = false := by
+  have hd := mkdir_then_isDir h hm
+  refine ⟨hd, ?_⟩
+  unfold isDir at hd; unfold isFile
+  split at hd <;> simp_all
+
+/-- `make_directory(P)` on something that exists fails -/
+theorem C48_make_directory_existing {fs : Fs} {cwd : Path} {s : String}
+    (hex : stat fs cwd s ≠ none) : mkdir fs cwd s = .error .exist := by
+  unfold stat at hex; unfold mkdir
+  split <;> simp_all
+
+/-- delete after create restores the tree: `make_directory(P), delete_directory(P)` -/
+theorem C48_create_delete_restores {fs fs1 : Fs} (h : WF fs) {cwd : Path} {s : String}
+    (hm : mkdir fs cwd s = .ok fs1) :
+    ∃ fs2, rmdir fs1 cwd s = .ok fs2 ∧ ∀ q, get fs2 q = get fs q := mkdir_rmdir_restores h hm
+
+/-- after `delete_file(P)` / `delete_directory(P)` neither `file_exists(P)` nor
+`directory_exists(P)` -/
+theorem C48_delete_then_gone {fs fs' : Fs} (h : WF fs) {cwd : Path} {s : String}
+    (hm : unlink fs cwd s = .ok fs' ∨ rmdir fs cwd s = .ok fs') :
+    isFile fs' cwd s = false ∧ isDir fs' cwd s = false := by
+  rcases hm with hm | hm
+  · exact unlink_then_gone h hm
+  · exact rmdir_then_gone h hm
+
+/-- `delete_directory/1` refuses a directory that has an entry -/
+theorem C48_delete_directory_nonempty {fs : Fs} {cwd : Path} {s : String} {p : Path} {n : Name}
+    (hr : resolve fs cwd s = .found p .dir) (hc : get fs (p ++ [n]) ≠ none) :
+    ∀ fs', rmdir fs cwd s ≠ .ok fs' := by
+  intro fs' hm
+  have hmem := (mem_children fs p n).2 hc
+  unfold rmdir at hm
+  split at hm
+  · cases hm
+  · split at hm
+    · cases hm
+    · rw [hr] at hm
+      simp only at hm
+      split at hm
+      · cases hm
+      · rename_i hne
+        simp at hne
+        rw [hne] at hmem; simp at hmem
+
+/-- `make_directory_path/1` (std's `create_dir_all`): whether it succeeds or fails half-way, the
+result is a tree in which only directories were added — every old entry is unchanged -/
+theorem C48_make_directory_path_frame {fs : Fs} (h : WF fs) (cwd : Path) (s : String) :
+    WF (createDirAll fs cwd s).1 ∧
+    ∀ q, get (createDirAll fs cwd s).1 q = get fs q ∨
+      (get fs q = none ∧ get (createDirAll fs cwd s).1 q = some .dir) := createDirAll_inv h cwd s
+
+/-- `make_directory_path(P)` then `directory_exists(P)` -/
+theorem C48_make_directory_path_then_exists {fs fs' : Fs} (h : WF fs) {cwd : Path} {s : String}
+    (hc : createDirAll fs cwd s = (fs', none)) (hne : rcomps s ≠ []) : isDir fs' cwd s = true :=
+  createDirAll_isDir h hc hne
+
+/-- `make_directory_path/1` is idempotent: a second call succeeds and changes nothing -/
+theorem C48_make_directory_path_idempotent {fs fs' : Fs} (h : WF fs) {cwd : Path} {s : String}
+    (hc : createDirAll fs cwd s = (fs', none)) : createDirAll fs' cwd s = (fs', none) :=
+  createDirAll_idem h hc
+
+/-- resolution is stable under growth: what a path named keeps its meaning when entries are added
+elsewhere (used for: queries agree with the tree after any later `make_directory…`/`file_copy`
+to a new name) -/
+theorem C48_resolution_stable {fs fs' : Fs} (hx : ∀ q, get fs q ≠ none → get fs' q = get fs q)
+    {cwd : Path} {s : String} {p : Path} {e : Entry} (hr : resolve fs cwd s = .found p e) :
+    resolve fs' cwd s = .found p e := resolve_found_stable hx hr
+
+/-! ## the invariant over operation sequences -/
+
+/-- every step of every script keeps the path map a tree (parents are directories); by induction
+(`C48_script_invariant`) this holds after any sequence of operations, so all the statements above
+apply at every step of a history -/
+theorem C48_step_invariant (cfg : Cfg) (hcfg : cfg.truncSelf = false) {fs : Fs} (h : WF fs) (op : Op) :
+    WF (step cfg fs op).1 := step_wf cfg hcfg h op
+
+theorem C48_script_invariant (cfg : Cfg) (hcfg : cfg.truncSelf = false) (ops : List Op) {fs : Fs}
+    (h : WF fs) : WF (exec cfg fs ops) := exec_wf cfg hcfg ops fs h
+
+/-- the empty scratch directory is a tree -/
+theorem C48_empty_tree_wf : WF [] := wf_nil
 
 end Scryer.FsTree
